@@ -94,4 +94,14 @@ TEXT = {
         'note': COMMON_NOTE,
         'technique': 'TLA+ spec + TLC enumeration of all (state, arguments), results compared on the code (G->R); spec-level theorems',
     },
+    'C09': {
+        'text': 'Bounded exhaustive model checking of the partial-forest state machine (spec/Partial.tla): all interleavings '
+                'of Modify, Verify(remember), Ingest, Prune, Undo and from-roots restarts within the bounds; after each '
+                'behaviour the real instance\'s leaf index and stored node map are dumped and judged against the '
+                'specification\'s relation (exact leaf index, true hashes, lower/upper bound on the stored set, canonical '
+                'proofs). TLC proves on the specification that the lower bound suffices to prove every cached subset.',
+        'design_ref': 'DESIGN.md section 5 (C09)',
+        'note': COMMON_NOTE,
+        'technique': 'TLA+ spec + TLC BFS over interleavings, Nodes/CachedLeaves dumps judged against the spec relation (G->R)',
+    },
 }
